@@ -109,13 +109,13 @@ message User { Outer.Inner x = 1; Outer.E e = 2; }
 		"keywords-as-names":  hdr + "message message { string string = 1; sint32 package = 2; bool option = 3; }",
 		"wkt": "syntax = \"proto3\";\npackage p;\nimport \"google/protobuf/timestamp.proto\";\nimport \"google/protobuf/wrappers.proto\";\n" +
 			"message A { google.protobuf.Timestamp t = 1; .google.protobuf.StringValue s = 2; }",
-		"service-options": hdr + `message A {} service S { option deprecated = true; rpc M (A) returns (A) { option idempotency_level = IDEMPOTENT; } rpc N (stream A) returns (stream A); }`,
-		"field-options":   hdr + `message A { repeated sint32 a = 1 [packed = true, deprecated = false]; string b = 2 [json_name = "bee"]; }`,
-		"hex-octal-number": hdr + `message A { string a = 0x10; string b = 017; }`,
-		"max-number":       hdr + `message A { string a = 536870911; string b = 18999; string c = 20000; }`,
-		"optional-message": hdr + `message A { optional A a = 1; }`,
-		"go-package-semi":  "syntax = \"proto3\";\noption go_package = \"example.com/x;xpb\";\nmessage A {}",
-		"enum-alias":       hdr + `enum E { option allow_alias = true; A = 0; B = 0; }`,
+		"service-options":    hdr + `message A {} service S { option deprecated = true; rpc M (A) returns (A) { option idempotency_level = IDEMPOTENT; } rpc N (stream A) returns (stream A); }`,
+		"field-options":      hdr + `message A { repeated sint32 a = 1 [packed = true, deprecated = false]; string b = 2 [json_name = "bee"]; }`,
+		"hex-octal-number":   hdr + `message A { string a = 0x10; string b = 017; }`,
+		"max-number":         hdr + `message A { string a = 536870911; string b = 18999; string c = 20000; }`,
+		"optional-message":   hdr + `message A { optional A a = 1; }`,
+		"go-package-semi":    "syntax = \"proto3\";\noption go_package = \"example.com/x;xpb\";\nmessage A {}",
+		"enum-alias":         hdr + `enum E { option allow_alias = true; A = 0; B = 0; }`,
 		"leading-underscore": hdr + `message _A { string _b = 1; }`,
 	} {
 		if _, err := Parse(src); err != nil {
